@@ -121,6 +121,12 @@ pub(super) async fn receive_batch_multipart(
                     #[cfg(not(feature = "tempfile"))]
                     let content = field.bytes().await?;
 
+                    if opts
+                        .max_num_files
+                        .is_some_and(|max_num_files| files.len() >= max_num_files)
+                    {
+                        return Err(ParseRequestError::PayloadTooLarge);
+                    }
                     files.push((name, filename, content_type, content));
                 }
             }
